@@ -13,44 +13,44 @@ Import RecordSetNotations.
 
 Theorem C03_pg_only_staking : forall cx s op, (forall evs, op <> OStaking evs) -> (forall evs, op <> OSimulate evs) ->
   (forall evs, op = OEndBlock evs -> evs = []) -> pg (fst (step cx s op)) = pg s.
-Proof. exact pg_only_staking. Qed.
+Proof. first [exact pg_only_staking | apply pg_only_staking]. Qed.
 Print Assumptions C03_pg_only_staking.
 
 Theorem C03_delegate_no_residue : forall cx s del val key existed amount v' d' s' d,
   step cx s (OStaking (ev_delegate del val key existed amount v' d')) = (s', OutTx COk d) -> pg s' = 0.
-Proof. exact delegate_no_residue. Qed.
+Proof. first [exact delegate_no_residue | apply delegate_no_residue]. Qed.
 Print Assumptions C03_delegate_no_residue.
 
 Theorem C03_unbond_partial_no_residue : forall cx s del val key d' v' s' d,
   step cx s (OStaking (ev_unbond_partial del val key d' v')) = (s', OutTx COk d) -> pg s' = 0.
-Proof. exact unbond_partial_no_residue. Qed.
+Proof. first [exact unbond_partial_no_residue | apply unbond_partial_no_residue]. Qed.
 Print Assumptions C03_unbond_partial_no_residue.
 
 Theorem C03_unbond_full_no_residue : forall cx s del val key v' s' d,
   step cx s (OStaking (ev_unbond_full del val key v')) = (s', OutTx COk d) -> pg s' = 0.
-Proof. exact unbond_full_no_residue. Qed.
+Proof. first [exact unbond_full_no_residue | apply unbond_full_no_residue]. Qed.
 Print Assumptions C03_unbond_full_no_residue.
 
 Theorem C03_restart_id : forall s, pg s = 0 -> restart s = s.
-Proof. exact restart_id. Qed.
+Proof. first [exact restart_id | apply restart_id]. Qed.
 Print Assumptions C03_restart_id.
 
 Theorem C03_restart_equiv : forall tr s, pg s = 0 -> run tr (restart s) = run tr s.
-Proof. exact restart_equiv. Qed.
+Proof. first [exact restart_equiv | apply restart_equiv]. Qed.
 Print Assumptions C03_restart_equiv.
 
 Theorem C03_failed_delegate_residue : forall cx s del val sh, del_shares s del val = Some sh ->
   fst (step cx s (OStaking (ev_delegate_fails del val))) = s <| pg := sh |>.
-Proof. exact failed_delegate_residue. Qed.
+Proof. first [exact failed_delegate_residue | apply failed_delegate_residue]. Qed.
 Print Assumptions C03_failed_delegate_residue.
 
 Theorem C03_simulate_residue : forall cx s del val sh, del_shares s del val = Some sh ->
   fst (step cx s (OSimulate (ev_delegate_fails del val))) = s <| pg := sh |>.
-Proof. exact simulate_residue. Qed.
+Proof. first [exact simulate_residue | apply simulate_residue]. Qed.
 Print Assumptions C03_simulate_residue.
 
 Theorem C03_restart_equiv_refuted : exists cx s op, pg s <> 0 /\ nodes (fst (step cx (restart s) op)) <> nodes (fst (step cx s op)).
-Proof. exact restart_equiv_refuted. Qed.
+Proof. first [exact restart_equiv_refuted | apply restart_equiv_refuted]. Qed.
 Print Assumptions C03_restart_equiv_refuted.
 
 Theorem C03_d10_crash_restart_divergence :
@@ -59,10 +59,10 @@ Theorem C03_d10_crash_restart_divergence :
   pg (d10_state 0) = 0 /\
   n_role <$> nodes (run tr2 (run tr1 (d10_state 0))) !! "N" = Some 1 /\
   n_role <$> nodes (run tr2 (restart (run tr1 (d10_state 0)))) !! "N" = Some 0.
-Proof. exact d10_crash_restart_divergence. Qed.
+Proof. first [exact d10_crash_restart_divergence | apply d10_crash_restart_divergence]. Qed.
 Print Assumptions C03_d10_crash_restart_divergence.
 
 Theorem C03_step_keeps_staking : forall cx s op, no_staking op = true ->
   vals (fst (step cx s op)) = vals s /\ dels (fst (step cx s op)) = dels s /\ pg (fst (step cx s op)) = pg s.
-Proof. exact step_keeps_staking. Qed.
+Proof. first [exact step_keeps_staking | apply step_keeps_staking]. Qed.
 Print Assumptions C03_step_keeps_staking.
